@@ -183,7 +183,7 @@ fn do_op(g: &mut Box<dyn DynGen>, op: &Op, log: &mut Digest) -> Result<(), Strin
 
 /// unrelated activity between two scheduled operations; nothing it returns is logged
 fn disturbance(code: u8, salt: u64) {
-    let _ = guard(|| match code % 4 {
+    let _ = guard(|| match code % 5 {
         0 => {
             // the zero-seed remap and the SplitMix64 expansion helper, on unrelated instances
             for k in [Kind::Xoshiro256PlusPlus, Kind::Xoroshiro64Star, Kind::Xoshiro512Plus, Kind::XorShift] {
@@ -213,6 +213,31 @@ fn disturbance(code: u8, salt: u64) {
                 if let Ok(mut j) = rand_jitter::JitterRng::new() {
                     let _ = j.next_u32();
                 }
+            }
+        }
+        4 => {
+            // an unrelated JitterRng over its own private counter: operations that produce no
+            // output at all (clone, clone_from, set_rounds, timer_stats, Debug, drop)
+            use std::sync::atomic::{AtomicU64, Ordering};
+            let c = std::sync::Arc::new(AtomicU64::new(salt | 1));
+            let n = std::sync::Arc::new(AtomicU64::new(0));
+            let c2 = c.clone();
+            let mut j = rand_jitter::JitterRng::new_with_timer(move || {
+                // hashed step sizes: never constant, never a constant difference for long
+                let i = n.fetch_add(1, Ordering::Relaxed);
+                let mut z = (i ^ salt).wrapping_mul(0x9e37_79b9_7f4a_7c15);
+                z = (z ^ (z >> 30)).wrapping_mul(0xbf58_476d_1ce4_e5b9);
+                z ^= z >> 27;
+                c2.fetch_add(100 + z % 997, Ordering::Relaxed)
+            });
+            j.set_rounds(1 + (salt % 3) as u8);
+            let mut k = j.clone();
+            let _ = k.timer_stats(salt & 1 == 0);
+            k.clone_from(&j);
+            let _ = format!("{:?}", k);
+            if salt % 4 == 0 {
+                use rand_core::RngCore;
+                let _ = k.next_u32();
             }
         }
         _ => {
@@ -462,6 +487,11 @@ fn gen_inst(rng: &mut Prng) -> Inst {
             ops.insert(0, Op::TestTimer);
             n_clock = 1900;
         }
+        if rng.chance(1, 3) {
+            // an operation that produces no output: the instance is replaced by its clone
+            let at = rng.below(ops.len() as u64 + 1) as usize;
+            ops.insert(at, Op::Fork);
+        }
         let mut clock = gen_plain_clock(rng, n_clock);
         if rng.chance(1, 6) {
             // this instance's own timer goes through a long stall / constant-rate stretch
@@ -553,7 +583,7 @@ impl Scenario for C19 {
         let mut cur_t = 0u8;
         for k in 0..total_ops + total_ops / 4 {
             if rng.chance(1, 9) {
-                sched.push((200 + rng.below(4) as u8, rng.below(spec.threads as u64) as u8));
+                sched.push((200 + rng.below(5) as u8, rng.below(spec.threads as u64) as u8));
                 continue;
             }
             let i = match style {
